@@ -322,3 +322,42 @@ Example C05_ex_xing :
   decode_mpeg_vbr (build_tag_frame (mkMpeg 3 1 1 9 0 0 0 1 0) 36 (build_xing_tag xing_sample_1 ++ lame_sample)) =
   Ok [128000; 44100; 2; 3; 10; 1; 0; 0; 1152; 417; 1; 1000; 2000000; 1; 576; 1105; 1150319; 44100].
 Proof. vm_compute. reflexivity. Qed.
+
+(* ================================================================== stage 2: AC-3 / E-AC-3 (finite domains, vm_compute) *)
+Require Import Model.InfoAc3 Proofs.C05_ac3.
+
+Theorem C05_ac3_tables_match_spec : ac3_table_diffs = [[]; []; []; []; []].
+Proof. exact ac3_tables_match_spec. Qed.
+Print Assumptions C05_ac3_tables_match_spec.
+
+(* A/52 syncframe, every fscod x frmsizecod (0..37) x bsid (0..10) x lfeon, channel modes 2/0, 3/0, 2/1, 2/2:
+   [codec; sample_rate; bitrate; channels] as encoded *)
+Theorem C05_ac3_header_partial : forall fscod frmsizecod bsid acmod lfe mix,
+  0 <= fscod <= 2 -> 0 <= frmsizecod <= 37 -> 0 <= bsid <= 10 -> In acmod [2; 3; 4; 6] -> 0 <= lfe <= 1 -> In mix [0; 5; 10] ->
+  let p := mkAc3 fscod frmsizecod bsid 0 acmod (mix mod 4) ((mix / 4) mod 4) (mix mod 4) lfe 27 in
+  exists l, decode_ac3 (build_ac3_frame p) = Ok l /\ firstn 4 l = expected_ac3 p.
+Proof. exact ac3_header_good_modes. Qed.
+Print Assumptions C05_ac3_header_partial.
+
+(* what is missing for the other channel modes (1+1, 1/0, 3/1, 3/2): the code reads lfeon two bits after acmod
+   whatever the mode; A/52 has 0 or 4 bits there.  Witness: a 5.1 stream reported with 5 channels. *)
+Theorem C05_ac3_lfe_position_refuted :
+  exists p l, a3_acmod p = 7 /\ a3_lfeon p = 1 /\ decode_ac3 (build_ac3_frame p) = Ok l /\
+              nth 3 l 0 = 5 /\ nth 3 (expected_ac3 p) 0 = 6.
+Proof. exact ac3_lfe_position_refuted. Qed.
+Print Assumptions C05_ac3_lfe_position_refuted.
+
+Theorem C05_eac3_header : forall strmtyp frmsiz fscod code2 acmod lfe,
+  0 <= strmtyp <= 2 -> In frmsiz [3; 4; 100; 767; 1024; 2047] -> 0 <= fscod <= 3 -> 0 <= code2 <= 3 ->
+  0 <= acmod <= 7 -> 0 <= lfe <= 1 ->
+  let p := mkEac3 strmtyp 0 frmsiz fscod (code2 mod 3) code2 acmod lfe 16 27 in
+  exists l, decode_ac3 (build_eac3_frame p) = Ok l /\ firstn 4 l = expected_eac3 p.
+Proof. exact eac3_header. Qed.
+Print Assumptions C05_eac3_header.
+
+Theorem C05_ac3_invalid_rejected :
+  forallb (fun p => ac3_rejects (build_ac3_frame p)) ac3_invalid_domain = true /\
+  forallb (fun p => ac3_rejects (build_eac3_frame p)) eac3_invalid_domain = true /\
+  zlen ac3_invalid_domain = 4544.
+Proof. exact ac3_invalid_rejected. Qed.
+Print Assumptions C05_ac3_invalid_rejected.
